@@ -47,6 +47,23 @@ def tokenizer_operator_sets(repo: Repo) -> tuple[set[str], set[str]]:
     return singles, multi
 
 
+def lookup_order_shared(repo: Repo, rep: Report, rid: str) -> None:
+    """The operand lookup order as a rule of another property: decided by the expression fold where that can interpret the evaluator."""
+    from ..exprfold import fold_expression
+    from .compiled import fallback_rule
+
+    fold = fold_expression(repo)
+    if fold is not None:
+        ev = repo.func("expression.py", "Expression.evaluate")
+        rep.rule(rid, "operand lookup order, folded: a name is looked up in the supplied context first - also when it is bound to 0 there - and in the constants "
+                      "second (the expression fold's lookup cases)")
+        bad = [b for b in fold["bad"] if b[1] or b[2]]
+        rep.check(not bad, rid, f"{ev.key}:lookup-fold", "context before constants on every lookup case",
+                  f"'{bad[0][0] if bad else ''}' with context {bad[0][1] if bad else ''} and constants {bad[0][2] if bad else ''} evaluates to {bad[0][3] if bad else ''}, expected {bad[0][4] if bad else ''}", ev.loc())
+        return
+    fallback_rule(repo, rep, False, "", lookup_order_rule, rid)
+
+
 def expression_fold_rule(repo: Repo, rep: Report, rid: str) -> None:
     rep.rule(rid, "expression evaluator folded: Expression(cs, text).evaluate(context) is interpreted on a corpus - every ordered pair of binary operators in "
                   "'a op1 b op2 c' (numbers and names), unary operators in front of and behind every binary operator, parentheses around either half, "
@@ -67,6 +84,21 @@ def expression_fold_rule(repo: Repo, rep: Report, rid: str) -> None:
 
 
 def run(repo: Repo, rep: Report, tier: str) -> None:
+    from ..exprfold import fold_expression
+    from .compiled import fallback_block
+
+    decided = fold_expression(repo) is not None
+    # R5 (effects: no state survives an evaluation) is not about the shape of the tables: it stays armed
+    fallback_block(repo, rep, decided, "the expression fold (R16)", _table_rules, tier, skip=("C10.R5",))
+    if decided:
+        ev = repo.func("expression.py", "Expression.evaluate")
+        rep.rule("C10.R5", "no state survives an evaluation: evaluate/evaluate_exp do not write to the Expression object (or reset before use)")
+        cg = CallGraph(repo)
+        residue_rule(repo, rep, "C10.R5", cg, cg.closure([ev.key]), [ev.key])
+    _rest(repo, rep, tier)
+
+
+def _table_rules(repo: Repo, rep: Report, tier: str) -> None:
     R1, R2, R3, R4, R5, R6 = (f"C10.R{i}" for i in range(1, 7))
     rep.rule(R1, "precedence table vs C: order relations between operator groups, equal levels exactly within a group")
     rep.rule(R2, "left associativity: the shunting-yard pop condition is 'top >= current'; unary operators are pushed without popping")
@@ -238,11 +270,20 @@ def run(repo: Repo, rep: Report, tier: str) -> None:
     residue_rule(repo, rep, R5, cg, clo, [ev.key])
     # rename the generic key so that evidence reads naturally
     lookup_order_rule(repo, rep, R6)
+
+
+def _rest(repo: Repo, rep: Report, tier: str) -> None:
     unary_marking_rule(repo, rep, "C10.R7", 6 if tier == "thorough" else 4)
     from .c07 import parse_time_count_rule
 
-    parse_time_count_rule(repo, rep, "C10.R8")
-    operand_conversion_rule(repo, rep, "C10.R9")
+    from .c13 import token_parser_shape
+
+    token_parser_shape(repo, rep, parse_time_count_rule, "C10.R8")
+    from ..exprfold import fold_expression
+    from .compiled import fallback_rule
+
+    # the fold evaluates a name bound to True and expects the int 1 back
+    fallback_rule(repo, rep, fold_expression(repo) is not None, "the expression fold (R16)", operand_conversion_rule, "C10.R9")
     from .memo import memo_rule
 
     memo_rule(repo, rep, "C10.R10")
@@ -257,7 +298,9 @@ def run(repo: Repo, rep: Report, tier: str) -> None:
     count_text_rule(repo, rep, "C10.R13")
     from .c07 import nesting_rule
 
-    nesting_rule(repo, rep, "C10.R14")
+    from .c13 import token_parser_shape as _tps
+
+    _tps(repo, rep, nesting_rule, "C10.R14")
     from .c13 import parser_fold_rule
 
     parser_fold_rule(repo, rep, "C10.R15")
